@@ -16,7 +16,7 @@ def run(ctx):
     ctx.rule("R-C15-DRIVER", "each driving loop (decode, DecodeIterator::next, DecoderReader::read) is a faithful driver of the push decoder: "
                              "(a) every source byte goes to push unmodified, once; (b) Err / Ok(true) / Ok(false) are forwarded as error / whole buffer / "
                              "nothing; (c) end of input calls finalize (reset) exactly once and forwards its report; (d) the iterator is terminal afterwards")
-    ctx.rule("R-C15-GENERIC", "the decoder touches its buffer only through Buffer::{push, clear}, Deref and len, so the buffer type cannot change results")
+    ctx.rule("R-C15-GENERIC", "the decoder touches its buffer only through the sealed Buffer trait (whose two implementations agree, R-C18-*), Deref and Default, so the buffer type cannot change results")
     ctx.rule("R-C15-SITES", "push / finalize / reset of the decoder are called from the three drivers and the thin wrappers only")
     F = ctx.facts("all")
     A = ctx.analysis("all")
@@ -25,6 +25,8 @@ def run(ctx):
         check_iterator(ctx, F, A)
         check_decode(ctx, F, A)
         check_generic(ctx, F)
+        ctx.include("C18", "'the buffer type does not change any result as long as its capacity is never exceeded': the decoder is generic over "
+                           "the sealed Buffer trait (R-C15-GENERIC), so this clause is the agreement of the two implementations")
         from .decoder import Anchors, check_final_reset, NOD
         an = Anchors(F)
         A.invariant(NOD)
@@ -449,7 +451,10 @@ def check_no_swallow(ctx, F, b, push_names):
 
 
 def check_generic(ctx, F):
-    allowed = {("util::Buffer", "push"), ("util::Buffer", "clear"), ("std::ops::Deref", "deref"), ("std::default::Default", "default")}
+    # every method of the sealed Buffer trait is covered by the buffer rules (R-C18-*: both implementations have the same effect on
+    # the Deref view as long as the capacity suffices), which this check includes
+    allowed = {("util::Buffer", "push"), ("util::Buffer", "clear"), ("util::Buffer", "extend_from_slice"), ("util::Buffer", "truncate"),
+               ("std::ops::Deref", "deref"), ("std::default::Default", "default")}
     n = 0
     for b in F.bodies.values():
         if not b["span"]["file"].endswith("transport/decode.rs") or b.get("auto_derived"):
@@ -465,7 +470,7 @@ def check_generic(ctx, F):
                 if (c["trait"], c["method"]) not in allowed:
                     ctx.violation("R-C15-GENERIC", "%s|%s::%s" % (b["def"], c["trait"], c["method"]),
                                   (b["span"]["file"], b["blocks"][bb]["tspan"]["line"], b["def"]),
-                                  "the decoder uses its buffer through %s::%s; only push / clear / deref are covered by the buffer contract" % (c["trait"], c["method"]))
+                                  "the decoder uses its buffer through %s::%s; only the Buffer trait, Deref and Default are covered by the buffer contract" % (c["trait"], c["method"]))
     if n < 4:
         ctx.violation("BELOW-FLOOR", "R-C15-GENERIC", ("", 0, ""), "only %d buffer uses found in decode.rs" % n)
     # who calls the decoder's mutators
